@@ -147,10 +147,11 @@ func alphabet() ([]string, []opDesc) {
 		names = append(names, fmt.Sprintf("Advance(%v)", d))
 		descs = append(descs, opDesc{1, "", 0, d, ""})
 	}
-	for _, src := range sources[:2] {
-		names = append(names, fmt.Sprintf("Req(%s,2)", src))
-		descs = append(descs, opDesc{0, src, 2, 0, ""})
-	}
+	names = append(names, "Req(a,2)")
+	descs = append(descs, opDesc{0, "a", 2, 0, ""})
+	// larger than the burst: refused with an error (not a 429) - and, like every request, a matter of its own source only
+	names = append(names, "Req(c,3)")
+	descs = append(descs, opDesc{0, "c", 3, 0, ""})
 	return names, descs
 }
 
@@ -273,6 +274,9 @@ func model(capacity, depth int, varRates bool) *lib.Model[*sys] {
 		if strings.HasPrefix(o, "429") {
 			rep.Count("rejections")
 		}
+		if strings.HasPrefix(o, "500") {
+			rep.Count("oversized_requests_refused")
+		}
 		if n := len(s.expiry); n >= 2 {
 			rep.Count("requests_with_several_tracked_sources")
 		}
@@ -303,7 +307,7 @@ func Run(tier string, sh lib.Shard, rep *lib.Report) {
 	rep.Bounds["capacities"] = []int{1, 2, 3, 0}
 	rep.Bounds["rate"] = "1s: average 1, burst 2 (TTL 11s); per-request-rates variants (capacity 1, 2): each request names 1s:1/2 (TTL 11s) or 3s:3/2 (TTL 31s)"
 	rep.Rule = "BFS over all histories (exact keys, depth-bounded) of Req(source in {a,b,c}, amount)/Advance on a shared real TokenLimiter and one solo-shadow real limiter per source; every decision must equal the shadow's; beyond capacity exactly one admissible victim (expired, else minimal expiry; read from private state) is forgotten and only its shadow is reset; non-trivial = requests made while several sources are tracked"
-	rep.Require("requests", "rejections", "requests_with_several_tracked_sources", "evictions_observed", "per_request_rate_models")
+	rep.Require("requests", "rejections", "requests_with_several_tracked_sources", "evictions_observed", "per_request_rate_models", "oversized_requests_refused")
 	for _, capacity := range []int{1, 2, 3, 0} {
 		m := model(capacity, depth, false)
 		m.Shard, m.ShardLevel = sh, 2
